@@ -32,7 +32,8 @@ type Kind struct {
 }
 
 var Kinds = []Kind{
-	{Name: "annotation", Keyed: true, Keys: []string{"ka", "kb"}, InAdjust: true, Removable: true},
+	// the second annotation key starts with a character that sorts below '-' (the removal marker)
+	{Name: "annotation", Keyed: true, Keys: []string{"ka", "+kb"}, InAdjust: true, Removable: true},
 	{Name: "env", Keyed: true, Keys: []string{"EA", "EB"}, InAdjust: true, Removable: true},
 	{Name: "mount", Keyed: true, Keys: []string{"/ma", "/mb"}, InAdjust: true, Removable: true},
 	{Name: "device", Keyed: true, Keys: []string{"/dev/da", "/dev/db"}, InAdjust: true, Removable: true},
@@ -103,6 +104,9 @@ func Norm(kind string, v int) int {
 }
 
 func sv(v int) string { return "v" + strconv.Itoa(v) }
+
+// envVal: the value of an environment variable contains the separator character itself
+func envVal(v int) string { return "o=" + sv(v) }
 
 func pv(s string) int {
 	s = strings.TrimLeft(s, "v/abcdefghijklmnopqrstuwxyz=")
@@ -343,7 +347,7 @@ func AdjustOp(a *api.ContainerAdjustment, op merge.Op) {
 	case it.Kind == "annotation":
 		a.AddAnnotation(it.Key, sv(v))
 	case it.Kind == "env":
-		a.AddEnv(it.Key, sv(v))
+		a.AddEnv(it.Key, envVal(v))
 	case it.Kind == "mount":
 		a.AddMount(mount(it.Key, v))
 	case it.Kind == "device":
@@ -456,7 +460,7 @@ func BuildContainer(id string, orig map[Item]int, lists map[string][]int) *api.C
 			}
 			c.Annotations[it.Key] = sv(v)
 		case "env":
-			c.Env = append(c.Env, it.Key+"="+sv(v))
+			c.Env = append(c.Env, it.Key+"="+envVal(v))
 		case "mount":
 			c.Mounts = append(c.Mounts, mount(it.Key, v))
 		case "device":
